@@ -1,6 +1,7 @@
 #!/bin/sh
 # Must-fail corpus: every mutant under /verif/selftest/mutants/<prop>/*.diff must make the
 # quick check of <prop> exit 1 with a VIOLATION line. usage: selftest.sh [prop ...]
+if [ -n "$(git -C /repo status --porcelain --untracked-files=no)" ]; then echo "refusing to run: /repo has uncommitted changes (they would be lost)"; exit 2; fi
 cd /verif/selftest/mutants || exit 2
 props="$@"; [ -z "$props" ] && props=$(ls)
 fail=0
